@@ -1,6 +1,7 @@
 """C32 -- C function exception declarations propagate errors faithfully (DESIGN 7/C32)."""
 import os, json, ast, math, re
 import cybuild, framework
+from props import C32_value
 
 TITLE = "C function exception declarations propagate errors faithfully"
 EXTRACTS = ["ExcSpec"]
@@ -12,19 +13,34 @@ RULE = ("generated .pyx: every exception clause (none/noexcept/except v/except? 
         "chain incl. nogil C caller, call through a function pointer of every compatible spec, Python call of cpdef); "
         "legacy_implicit_noexcept module; C++ module (except +, +*, +PyExc; 12 thrown classes); declaration table "
         "(clause x kind x extern/cclass/funcptr/pxd/legacy) dumped from the compiler; distinct by (module, function, "
-        "caller, mode, value, stale)")
+        "caller, mode, value, stale).  Value level (props/C32_value.py): every integer return type (signed/unsigned/plain "
+        "char, short, int, long, long long, size_t, Py_ssize_t, Py_UCS4, typedef, stdint, bint) and float/double x "
+        "sentinel spelling (negative, maximum, minimum, maximum+1 = not a value of the type, constant expressions "
+        "-(1+1) / <int>-1 / enum constant / DEF, 0.1 / NaN / inf) x except v / except? v x body (returns the stored "
+        "sentinel, its neighbours, extremes, raises, raises-and-handles) x call context (assignment, inside an expression, "
+        "statement with discarded result, nogil block); the emitted test text of every call site is parsed, compared "
+        "with the model's emitted text and evaluated by gcc over all (8/16-bit) or boundary (32/64-bit) result values")
 EXPLANATION = ("theorems: for every spec/kind/flavour/caller context/body/value, the emitted epilogue + call-site check give "
                "exactly the documented outcome (Raise e iff the body raised and the spec propagates; else Return r with "
                "nothing pending), under the user contract for plain 'except v'; 'except? v' returning v is not an error; "
                "noexcept reports exactly once and returns the default; no thread-state access without the GIL; stale "
                "pending exceptions characterised; normalisation of every clause is well-formed and the compiler's dumped "
-               "declaration table equals the model (by computation); pointer-assignment compatibility is sound. "
+               "declaration table equals the model (by computation); pointer-assignment compatibility is sound; value level: "
+               "with C's typing of constants, integer promotion, usual arithmetic conversions and casts made explicit, the "
+               "emitted test result == ((T)constant) is true exactly for the stored sentinel for every integer type "
+               "width/signedness and every constant expression whenever the cast keeps the stored value (T = return type); "
+               "without the cast it is never true for unsigned types narrower than int and negative constants; the abstract "
+               "sentinel test of the decision model is that C test; floats over abstract ==/rounding. "
                "partial: C++ 'except +' is reduced to the catch-order table of __Pyx_CppExn2PyErr (tested, 3 handlers); "
                "tracebacks, refcounts and memoryview returns are not modelled.")
-TRUSTED = ["CPython C-API contract of PyErr_Occurred/PyErr_WriteUnraisable/PyGILState_* (Gallina definitions in M_ExcSpec.v)",
+TRUSTED = ["C11 6.3.1.1/6.3.1.8/6.4.4.1 (promotion, usual arithmetic conversions, constant typing) transcribed in M_ExcTest.v for LP64 "
+           "and cross-checked against gcc on every emitted test text", "OCaml float = / Int32.bits_of_float as C == / (float) rounding",
+           "CPython C-API contract of PyErr_Occurred/PyErr_WriteUnraisable/PyGILState_* (Gallina definitions in M_ExcSpec.v)",
            "gcc/g++ as conforming compilers", "sys.unraisablehook as the observer of unraisable reports",
            "documented semantics transcribed by hand in the harness oracle (user guide, 'Error return values')"]
 ASSUMPTIONS = ["LP64", "CPython 3.12 (non-debug)",
+               "gcc: conversion to a signed integer type is reduction modulo 2^w; a decimal constant that fits no signed type "
+               "is unsigned long (Cython writes LONG_MIN as -9223372036854775808L); plain char is signed (x86-64)",
                "an 'except v' function returning v without an exception is outside the contract (crashes in PyTraceBack_Here "
                "on 3.12): only the model tie 'error path without exception' is checked there"]
 
@@ -994,8 +1010,14 @@ def run(ctx):
     fp_src, fp_index = gen_fp_module(fp_ok)
     specs.append(dict(name="c32_fp", source=fp_src, workdir=wd, cflags=O0))
     specs.append(dict(name="c32_cpp", source=CPP_SRC, workdir=wd, cplus=True, cflags=O0))
+    # value level: return type x sentinel spelling modules + the compiler's own exception values (thread)
+    vmods, vcallers = C32_value.plan_modules(not quick)
+    vthread, vbox = C32_value.start_dump(cybuild, wd, vmods)
+    for vm in vmods:
+        specs.append(dict(name=vm["name"], source=vm["source"], workdir=wd, cflags=O0))
     tick("fp probe done")
-    built = cybuild.build_many(specs, jobs=min(len(specs), 12))
+    built = cybuild.build_many(specs, jobs=min(len(specs), 14))
+    vthread.join()
     tick("built")
     for (so, err), spn in zip(built, specs):
         if err is not None:
@@ -1053,6 +1075,11 @@ def run(ctx):
     tick("cases done")
     run_cpp(ctx, model)
     tick("cpp done")
+    C32_value.run_value(ctx, model, cybuild, vmods, vcallers, vbox, EXC_ID, EXC_NAME, dtag, model_expect)
+    tick("value level done")
+    if os.environ.get("C32_DEBUG"):
+        with open(os.environ["C32_DEBUG"], "w") as f:
+            json.dump({"fails": ctx.prop_failures, "breaks": ctx.corr_breaks, "known": ctx.known_hits}, f, indent=1, default=str)
 
 
 def probe_fp_compat(ctx, fp_all):
